@@ -17,11 +17,16 @@
 
   Helper lemmas live in RV/Proofs/Prov.lean; the value-level agreement of the `encrypt=`, vendor and
   concat mirrors with the total models (§5b: `lookup_agrees_all`, `repeat_lookup_same_all`) in
-  RV/Proofs/ProvView.lean.
+  RV/Proofs/ProvView.lean; the same for `X_Gets` (§5c: `gets_agrees_all`, `repeat_gets_same_all`,
+  `repeat_gets_is_model` — values returned early are read in a heap that later rounds have extended)
+  in RV/Proofs/ProvGets.lean, and for `X_Get` / `X_LookupString` / `X_GetString` / `X_GetStrings`
+  (§5d: `get_agrees_all`, …) in RV/Proofs/ProvGet.lean.
 -/
 import RV.Model.Prov
 import RV.Proofs.Prov
 import RV.Proofs.ProvView
+import RV.Proofs.ProvGets
+import RV.Proofs.ProvGet
 namespace RV.C13
 open RV RV.Prov
 
@@ -251,6 +256,152 @@ theorem repeat_lookup_is_model (H : Hash) (hH : ∀ x, (H x).length = 16) (d : D
   rw [this]
   exact hLookupH_view_all H hH d p auth h hp
 
+/-! ### 5c. `X_Gets` for EVERY descriptor
+
+    `X_Gets` decodes the stored values one after the other, and every round allocates.  The caller
+    reads ALL returned values in the heap the call leaves, i.e. an early value is read after later
+    rounds have run.  `hp`: the packet's slices point into existing buffers; `hH`: 16-octet digests. -/
+
+/-- `X_Gets` of EVERY attribute descriptor — vendor or not, `encrypt` 0 / 1 / 2: the list of
+    (tag, value) pairs the caller reads through the returned slices in the FINAL heap, and the success
+    flag, are the total model's answer -/
+theorem gets_agrees_all (H : Hash) (hH : ∀ x, (H x).length = 16) (d : Desc) (p : HPacket) (auth : Bytes)
+    (h : Heap) (hp : p.below h.length) :
+    ((hGetsH H d p auth h).1.1.map (fun tv => (tv.1, tv.2.view (hGetsH H d p auth h).2)),
+      (hGetsH H d p auth h).1.2) =
+      hGets H d (p.view h).attrs (h.read p.secret) auth :=
+  hGetsH_view_all H hH d p auth h hp
+
+/-- … hence two `X_Gets` calls in a row show the caller the same list, for every descriptor -/
+theorem repeat_gets_same_all (H : Hash) (hH : ∀ x, (H x).length = 16) (d : Desc) (p : HPacket) (auth : Bytes)
+    (h : Heap) (hp : p.below h.length) :
+    let r₁ := hGetsH H d p auth h
+    let r₂ := hGetsH H d p auth r₁.2
+    (r₂.1.1.map (fun tv => (tv.1, tv.2.view r₂.2)), r₂.1.2) =
+      (r₁.1.1.map (fun tv => (tv.1, tv.2.view r₁.2)), r₁.1.2) :=
+  hGetsH_repeat_all H hH d p auth h hp
+
+/-- … and the second list is still the model's answer on the ORIGINAL packet -/
+theorem repeat_gets_is_model (H : Hash) (hH : ∀ x, (H x).length = 16) (d : Desc) (p : HPacket) (auth : Bytes)
+    (h : Heap) (hp : p.below h.length) :
+    let r₁ := hGetsH H d p auth h
+    let r₂ := hGetsH H d p auth r₁.2
+    (r₂.1.1.map (fun tv => (tv.1, tv.2.view r₂.2)), r₂.1.2) =
+      hGets H d (p.view h).attrs (h.read p.secret) auth := by
+  intro r₁ r₂
+  exact (hGetsH_repeat_all H hH d p auth h hp).trans (hGetsH_view_all H hH d p auth h hp)
+
+/-- every slice `X_Gets` (and the decode body) returns lies in a buffer that exists in the heap the
+    call leaves — together with `results_fresh`: in a buffer the call allocated -/
+theorem results_in_bounds (H : Hash) (d : Desc) (p : HPacket) (a s : Slice) (auth : Bytes) (h : Heap) :
+    (∀ x ∈ slices (decodeValueH H d a s auth h).1, x.buf < (decodeValueH H d a s auth h).2.length) ∧
+    (∀ x ∈ slices (hGetsH H d p auth h).1, x.buf < (hGetsH H d p auth h).2.length) :=
+  ⟨decodeValueH_bound H d a s auth h, hGetsH_bound H d p auth h⟩
+
+/-- monotonicity: a value whose slices lie in existing buffers reads the same in every later heap
+    that left those buffers alone — in particular after any further pure observer -/
+theorem value_stable_under_pure {α} (v : GValH) (g : Heap) (hv : ∀ s ∈ slices v, s.buf < g.length)
+    (m : M α) (hm : PureObs m) : v.view (m g).2 = v.view g :=
+  GValH.view_ext (hm g) v hv
+
+/-- the list the FIRST `X_Gets` returned is not disturbed by any later pure observer (a second
+    `X_Gets`, a `Parse`, an `Encode`, …): read afterwards, it shows the same values -/
+theorem gets_result_stable {α} (H : Hash) (d : Desc) (p : HPacket) (auth : Bytes) (h : Heap)
+    (m : M α) (hm : PureObs m) :
+    let r₁ := hGetsH H d p auth h
+    r₁.1.1.map (fun tv => (tv.1, tv.2.view (m r₁.2).2)) = r₁.1.1.map (fun tv => (tv.1, tv.2.view r₁.2)) := by
+  intro r₁
+  exact congrArg Prod.fst (hGetsH_first_stable H d p auth h m hm)
+
+/-! ### 5d. `X_Get`, `X_LookupString`, `X_GetString`, `X_GetStrings`
+
+    `X_Get` is emitted as `tag, value, _ = X_Lookup(p)`: the named results of `X_Lookup` at its
+    `return`, error dropped.  `hGetH` mirrors exactly that (`none` = the zero value of the Go result
+    type, which refers to no buffer); `getView` is what the caller sees.  The string flavours use
+    `radius.String` / `string(b)` — a new immutable string per conversion. -/
+
+/-- the new mirrors are pure observers and return only fresh slices -/
+theorem getters_pure_and_fresh (H : Hash) (d : Desc) (p : HPacket) (a s : Slice) (auth : Bytes) :
+    PureObs (lookupResultsH H d a s auth) ∧ PureObs (hGetH H d p auth) ∧
+    PureObs (lookupStringBodyH H d a s auth) ∧ PureObs (hLookupStringH H d p auth) ∧
+    PureObs (hGetStringH H d p auth) ∧ PureObs (hGetStringsH H d p auth) ∧
+    FreshObs (lookupResultsH H d a s auth) ∧ FreshObs (hGetH H d p auth) ∧
+    FreshObs (lookupStringBodyH H d a s auth) ∧ FreshObs (hLookupStringH H d p auth) ∧
+    FreshObs (hGetStringH H d p auth) ∧ FreshObs (hGetStringsH H d p auth) :=
+  ⟨pure_of_tr (fun n => tr_lookupResultsH n H d a s auth), pure_of_tr (fun n => tr_hGetH n H d p auth),
+   pure_of_tr (fun n => tr_lookupStringBodyH n H d a s auth), pure_of_tr (fun n => tr_hLookupStringH n H d p auth),
+   pure_of_tr (fun n => tr_hGetStringH n H d p auth), pure_of_tr (fun n => tr_hGetStringsH n H d p auth),
+   fresh_of_tr (fun n => tr_lookupResultsH n H d a s auth), fresh_of_tr (fun n => tr_hGetH n H d p auth),
+   fresh_of_tr (fun n => tr_lookupStringBodyH n H d a s auth), fresh_of_tr (fun n => tr_hLookupStringH n H d p auth),
+   fresh_of_tr (fun n => tr_hGetStringH n H d p auth), fresh_of_tr (fun n => tr_hGetStringsH n H d p auth)⟩
+
+/-- the named results of `X_Lookup` once the attribute was found (what `X_Get` hands on), every
+    descriptor, error paths included -/
+theorem lookupResults_agree_all (H : Hash) (hH : ∀ x, (H x).length = 16) (d : Desc) (a secret : Slice)
+    (auth : Bytes) (h : Heap) :
+    getView d.kind (lookupResultsH H d a secret auth h).2 (lookupResultsH H d a secret auth h).1 =
+      lookupResults H d (h.read a) (h.read secret) auth :=
+  lookupResultsH_view_all H hH d a secret auth h
+
+/-- `X_Get` of EVERY attribute descriptor: what the caller reads is the total model's `hGet` — also
+    when the attribute is absent or undecodable -/
+theorem get_agrees_all (H : Hash) (hH : ∀ x, (H x).length = 16) (d : Desc) (p : HPacket) (auth : Bytes)
+    (h : Heap) (hp : p.below h.length) :
+    getView d.kind (hGetH H d p auth h).2 (hGetH H d p auth h).1 =
+      hGet H d (p.view h).attrs (h.read p.secret) auth :=
+  hGetH_view_all H hH d p auth h hp
+
+theorem repeat_get_same_all (H : Hash) (hH : ∀ x, (H x).length = 16) (d : Desc) (p : HPacket) (auth : Bytes)
+    (h : Heap) (hp : p.below h.length) :
+    let r₁ := hGetH H d p auth h
+    let r₂ := hGetH H d p auth r₁.2
+    getView d.kind r₂.2 r₂.1 = getView d.kind r₁.2 r₁.1 :=
+  hGetH_repeat_all H hH d p auth h hp
+
+theorem repeat_get_is_model (H : Hash) (hH : ∀ x, (H x).length = 16) (d : Desc) (p : HPacket) (auth : Bytes)
+    (h : Heap) (hp : p.below h.length) :
+    let r₁ := hGetH H d p auth h
+    let r₂ := hGetH H d p auth r₁.2
+    getView d.kind r₂.2 r₂.1 = hGet H d (p.view h).attrs (h.read p.secret) auth := by
+  intro r₁ r₂
+  exact (hGetH_repeat_all H hH d p auth h hp).trans (hGetH_view_all H hH d p auth h hp)
+
+/-- `X_LookupString` and `X_GetString`, every descriptor (they are emitted for string / octets /
+    concat attributes; `""` is the zero value) -/
+theorem string_getters_agree_all (H : Hash) (hH : ∀ x, (H x).length = 16) (d : Desc) (p : HPacket) (auth : Bytes)
+    (h : Heap) (hp : p.below h.length) :
+    (hLookupStringH H d p auth h).1.view (hLookupStringH H d p auth h).2 =
+      hLookupString H d (p.view h).attrs (h.read p.secret) auth ∧
+    getView .string (hGetStringH H d p auth h).2 (hGetStringH H d p auth h).1 =
+      hGetString H d (p.view h).attrs (h.read p.secret) auth :=
+  ⟨hLookupStringH_view_all H hH d p auth h hp, hGetStringH_view_all H hH d p auth h hp⟩
+
+/-- `X_GetStrings` (text kinds): the list read in the final heap and the success flag -/
+theorem get_strings_agrees_all (H : Hash) (hH : ∀ x, (H x).length = 16) (d : Desc)
+    (hk : d.kind = .string ∨ d.kind = .octets ∨ d.kind = .concat) (p : HPacket) (auth : Bytes)
+    (h : Heap) (hp : p.below h.length) :
+    ((hGetStringsH H d p auth h).1.1.map (fun tv => (tv.1, tv.2.view (hGetStringsH H d p auth h).2)),
+      (hGetStringsH H d p auth h).1.2) =
+      hGetStrings H d (p.view h).attrs (h.read p.secret) auth :=
+  hGetStringsH_view_all H hH d hk p auth h hp
+
+/-- the string flavours answer the same when asked again -/
+theorem repeat_string_getters_same_all (H : Hash) (hH : ∀ x, (H x).length = 16) (d : Desc) (p : HPacket)
+    (auth : Bytes) (h : Heap) (hp : p.below h.length) :
+    (let r₁ := hLookupStringH H d p auth h
+     let r₂ := hLookupStringH H d p auth r₁.2
+     r₂.1.view r₂.2 = r₁.1.view r₁.2) ∧
+    (let r₁ := hGetStringH H d p auth h
+     let r₂ := hGetStringH H d p auth r₁.2
+     getView .string r₂.2 r₂.1 = getView .string r₁.2 r₁.1) ∧
+    (d.kind = .string ∨ d.kind = .octets ∨ d.kind = .concat →
+     let r₁ := hGetStringsH H d p auth h
+     let r₂ := hGetStringsH H d p auth r₁.2
+     (r₂.1.1.map (fun tv => (tv.1, tv.2.view r₂.2)), r₂.1.2) =
+       (r₁.1.1.map (fun tv => (tv.1, tv.2.view r₁.2)), r₁.1.2)) :=
+  ⟨hLookupStringH_repeat_all H hH d p auth h hp, hGetStringH_repeat_all H hH d p auth h hp,
+   fun hk => hGetStringsH_repeat_all H hH d hk p auth h hp⟩
+
 /-! ### History: the defect that was repaired is visible in this layer -/
 
 /-- The PREVIOUS tagged-integer getter (`a[0] = 0x00` stored through the slice `p.Lookup` returned):
@@ -321,6 +472,49 @@ example : (hLookupH zh ⟨79, 0, 0, .concat, false, 0, none⟩ exPacket (zeros 1
 example : (hLookupH zh ⟨79, 0, 0, .concat, false, 0, none⟩ exPacket (zeros 16) exHeap).2 =
     exHeap ++ [[1, 2, 3], [1, 2], [3]] := by decide +kernel
 example : slices (hLookupH zh ⟨79, 0, 0, .concat, false, 0, none⟩ exPacket (zeros 16) exHeap).1 = [⟨5, 0, 3⟩] := by
+  decide +kernel
+
+/-! ### Non-vacuity of 5c / 5d on the same heap -/
+
+/-- `X_Gets` over the two occurrences of attribute 79 read as plain octets: two values, each in a
+    buffer of its own, both read in the final heap -/
+example : ((hGetsH zh ⟨79, 0, 0, .octets, false, 0, none⟩ exPacket (zeros 16) exHeap).1.1.map
+      (fun tv => (tv.1, tv.2.view (hGetsH zh ⟨79, 0, 0, .octets, false, 0, none⟩ exPacket (zeros 16) exHeap).2)),
+    (hGetsH zh ⟨79, 0, 0, .octets, false, 0, none⟩ exPacket (zeros 16) exHeap).1.2) =
+    ([(0, .bytes [1, 2]), (0, .bytes [3])], true) := by
+  rw [gets_agrees_all zh zh_len _ _ _ _ exPacket_below]; decide +kernel
+example : slices (hGetsH zh ⟨79, 0, 0, .octets, false, 0, none⟩ exPacket (zeros 16) exHeap).1 =
+    [⟨5, 0, 2⟩, ⟨6, 0, 1⟩] := by decide +kernel
+
+/-- `X_Gets` stops at the first undecodable value: `octets[2]` accepts the first occurrence only -/
+example : ((hGetsH zh ⟨79, 0, 0, .octets, false, 0, some 2⟩ exPacket (zeros 16) exHeap).1.1.map
+      (fun tv => (tv.1, tv.2.view (hGetsH zh ⟨79, 0, 0, .octets, false, 0, some 2⟩ exPacket (zeros 16) exHeap).2)),
+    (hGetsH zh ⟨79, 0, 0, .octets, false, 0, some 2⟩ exPacket (zeros 16) exHeap).1.2) =
+    ([(0, .bytes [1, 2])], false) := by
+  rw [gets_agrees_all zh zh_len _ _ _ _ exPacket_below]; decide +kernel
+
+/-- `X_Get` on an error path: a tagged integer of the wrong length — the tag octet stripped before
+    the failing decode is kept, the value is 0; nothing in the packet was touched -/
+example : getView .integer (hGetH zh ⟨79, 0, 0, .integer, true, 0, none⟩ exPacket (zeros 16) exHeap).2
+    (hGetH zh ⟨79, 0, 0, .integer, true, 0, none⟩ exPacket (zeros 16) exHeap).1 = (1, .nat 0) :=
+  (get_agrees_all zh zh_len ⟨79, 0, 0, .integer, true, 0, none⟩ exPacket (zeros 16) exHeap exPacket_below).trans
+    (by decide +kernel)
+example : exPacket.view (hGetH zh ⟨79, 0, 0, .integer, true, 0, none⟩ exPacket (zeros 16) exHeap).2 =
+    exPacket.view exHeap := by decide +kernel
+
+/-- `X_Get` of an absent attribute: the zero value (a nil `*net.IPNet`), no buffer -/
+example : getView .ipv6prefix (hGetH zh ⟨5, 0, 0, .ipv6prefix, false, 0, none⟩ exPacket (zeros 16) exHeap).2
+    (hGetH zh ⟨5, 0, 0, .ipv6prefix, false, 0, none⟩ exPacket (zeros 16) exHeap).1 = (0, .pfx none) :=
+  (get_agrees_all zh zh_len ⟨5, 0, 0, .ipv6prefix, false, 0, none⟩ exPacket (zeros 16) exHeap exPacket_below).trans
+    (by decide +kernel)
+example : slices (hGetH zh ⟨5, 0, 0, .ipv6prefix, false, 0, none⟩ exPacket (zeros 16) exHeap).1 = [] := by
+  decide +kernel
+
+/-- `X_GetString` of an `encrypt=1` attribute: the decryption buffer, then a string made from it -/
+example : getView .string (hGetStringH zh ⟨2, 0, 0, .string, false, 1, none⟩ exPacket (zeros 16) exHeap).2
+    (hGetStringH zh ⟨2, 0, 0, .string, false, 1, none⟩ exPacket (zeros 16) exHeap).1 = (0, .bytes [0x61, 0x62]) := by
+  rw [(string_getters_agree_all zh zh_len _ _ _ _ exPacket_below).2]; decide +kernel
+example : slices (hGetStringH zh ⟨2, 0, 0, .string, false, 1, none⟩ exPacket (zeros 16) exHeap).1 = [⟨6, 0, 2⟩] := by
   decide +kernel
 
 end RV.C13
